@@ -216,3 +216,132 @@ Example C19_zero_shares_needs_hypothesis :
   | _ => False
   end.
 Proof. vm_compute. reflexivity. Qed.
+
+(* ========================================================================
+   Text layer (src/peripheral/broker/etrade.rs): Model/EtradeText.v,
+   Spec/EtradeLayout.v; proofs in Proofs/EtradeTextRT.v, EtradeTextProps.v.   *)
+From ACB Require Import Model.QText Model.EtradeText Spec.EtradeLayout Proofs.EtradeTextRT Proofs.EtradeTextProps.
+
+(* The statement's data is returned exactly: for EVERY well-formed release
+   confirmation (any symbol of upper-case letters and dots, any valid date, any
+   award number, any amounts digits.digits of at most 28 digits), in both
+   white-space styles, the RSU parser returns the printed data. *)
+Theorem C19_rsu_text_roundtrip : forall st r,
+  wf_rsu r = true -> parse_rsu (render_rsu st r) = Ok (rsu_record r).
+Proof. exact rsu_text_roundtrip. Qed.
+Check C19_rsu_text_roundtrip : forall st r,
+  wf_rsu r = true -> parse_rsu (render_rsu st r) = Ok (rsu_record r).
+Print Assumptions C19_rsu_text_roundtrip.
+
+(* ... and the document is classified as a release confirmation and reaches
+   the matching core as the abstract record. *)
+Theorem C19_rsu_doc_roundtrip : forall st r, wf_rsu r = true ->
+  parse_text (render_rsu st r) = Ok (Benefits [rsu_record r])
+  /\ parse_doc (render_rsu st r) = Ok (Some ([abs_benefit (rsu_record r)], [])).
+Proof. exact rsu_doc_roundtrip. Qed.
+Check C19_rsu_doc_roundtrip : forall st r, wf_rsu r = true ->
+  parse_text (render_rsu st r) = Ok (Benefits [rsu_record r])
+  /\ parse_doc (render_rsu st r) = Ok (Some ([abs_benefit (rsu_record r)], [])).
+Print Assumptions C19_rsu_doc_roundtrip.
+
+(* Post-2023 (Morgan Stanley) trade confirmation: any account of letters,
+   digits and '-', any valid dates MM/DD/YYYY, whole quantity, price
+   digits.digits, a transaction type of words that TxAction::try_from accepts,
+   commission and fee lines each present or absent. *)
+Theorem C19_tc_post_text_roundtrip : forall st r,
+  wf_post r = true -> parse_tc_post (render_tc_post st r) = Ok (post_record r).
+Proof. exact post_text_roundtrip. Qed.
+Check C19_tc_post_text_roundtrip : forall st r,
+  wf_post r = true -> parse_tc_post (render_tc_post st r) = Ok (post_record r).
+Print Assumptions C19_tc_post_text_roundtrip.
+
+(* The other three kinds: the full statements, and what is proved of them
+   (instances by computation: the unit-test documents of etrade.rs rebuilt,
+   with and without sell-to-cover, three grants, three trade rows incl. a
+   purchase and a dotted symbol, both styles).  The check evaluates the same
+   statements on every generated document. *)
+Definition C19_text_roundtrips_full : Prop :=
+  espp_roundtrip_full /\ eso_roundtrip_full /\ pre_roundtrip_full.
+Theorem C19_text_roundtrips_partial :
+  forallb (fun st => forallb (fun stc =>
+     wf_espp (ex_espp stc) && res_eqb tbenefit_eqb (parse_espp (render_espp st (ex_espp stc))) (espp_record (ex_espp stc)))
+     [true; false]) [true; false] = true
+  /\ forallb (fun st => wf_eso ex_eso
+       && res_eqb (list_eqb tbenefit_eqb) (parse_eso (render_eso st ex_eso)) (eso_records ex_eso)) [true; false] = true
+  /\ forallb (fun st => wf_pre ex_pre
+       && res_eqb (list_eqb ttrade_eqb) (parse_tc_pre (render_tc_pre st ex_pre))
+            (pre_records (pr_acct ex_pre) 1 (pr_rows ex_pre))) [true; false] = true.
+Proof. exact (conj espp_roundtrip_instances (conj eso_roundtrip_instances pre_roundtrip_instances)). Qed.
+Check C19_text_roundtrips_partial :
+  forallb (fun st => forallb (fun stc =>
+     wf_espp (ex_espp stc) && res_eqb tbenefit_eqb (parse_espp (render_espp st (ex_espp stc))) (espp_record (ex_espp stc)))
+     [true; false]) [true; false] = true
+  /\ forallb (fun st => wf_eso ex_eso
+       && res_eqb (list_eqb tbenefit_eqb) (parse_eso (render_eso st ex_eso)) (eso_records ex_eso)) [true; false] = true
+  /\ forallb (fun st => wf_pre ex_pre
+       && res_eqb (list_eqb ttrade_eqb) (parse_tc_pre (render_tc_pre st ex_pre))
+            (pre_records (pr_acct ex_pre) 1 (pr_rows ex_pre))) [true; false] = true.
+Print Assumptions C19_text_roundtrips_partial.
+
+(* Totality of the text layer is REFUTED: parse_eso_entries adds the per-grant
+   fees with rust_decimal's `+`, which panics on overflow. *)
+Theorem C19_text_never_panics_refuted : exists s, parse_doc s = Panic PanicOverflow.
+Proof. exact doc_never_panics_refuted. Qed.
+Check C19_text_never_panics_refuted : exists s, parse_doc s = Panic PanicOverflow.
+Print Assumptions C19_text_never_panics_refuted.
+
+(* what is proved of the positive side: the RSU and ESPP parsers never panic *)
+Definition C19_text_panics_only_in_eso_full : Prop :=
+  forall s, classify_doc s <> Some KEso -> forall p, parse_text s <> Panic p.
+Theorem C19_text_never_panics_partial : forall s p, parse_rsu s <> Panic p /\ parse_espp s <> Panic p.
+Proof. intros s p. split; [apply parse_rsu_no_panic|apply parse_espp_no_panic]. Qed.
+Check C19_text_never_panics_partial : forall s p, parse_rsu s <> Panic p /\ parse_espp s <> Panic p.
+Print Assumptions C19_text_never_panics_partial.
+
+(* The per-grant zip of parse_eso_data: as many grants as the SHORTEST of the
+   six row lists, the k-th grant made of the k-th entry of each list. *)
+Theorem C19_zip_truncation : forall idx nums fmvs shares sales fees,
+  length (zip_grants idx nums fmvs shares sales fees)
+  = min6 (length idx) (length nums) (length fmvs) (length shares) (length sales) (length fees)
+  /\ forall k, (k < length (zip_grants idx nums fmvs shares sales fees))%nat ->
+       nth k (zip_grants idx nums fmvs shares sales fees) dg
+       = {| g_num := nth k nums 0%N; g_fmv := nth k fmvs 0%Qc; g_shares := nth k shares 0%Qc;
+            g_sale := nth k sales 0%Qc; g_fee := nth k fees 0%Qc |}.
+Proof. intros. split; [apply zip_grants_length|intros; apply zip_grants_nth; assumption]. Qed.
+Check C19_zip_truncation : forall idx nums fmvs shares sales fees,
+  length (zip_grants idx nums fmvs shares sales fees)
+  = min6 (length idx) (length nums) (length fmvs) (length shares) (length sales) (length fees)
+  /\ forall k, (k < length (zip_grants idx nums fmvs shares sales fees))%nat ->
+       nth k (zip_grants idx nums fmvs shares sales fees) dg
+       = {| g_num := nth k nums 0%N; g_fmv := nth k fmvs 0%Qc; g_shares := nth k shares 0%Qc;
+            g_sale := nth k sales 0%Qc; g_fee := nth k fees 0%Qc |}.
+Print Assumptions C19_zip_truncation.
+
+(* ... so a grant whose row is missing is silently dropped: the witness names
+   two grants, the parse succeeds with one benefit (violation candidate of
+   "each benefit is accounted for exactly once, or an error"). *)
+Theorem C19_eso_each_grant_once_refuted :
+  grant_number_rows dropped_grant_witness = 2%nat /\
+  exists b, parse_text dropped_grant_witness = Ok (Benefits [b])
+            /\ tb_note b = w_note_1234 /\ Qceqb (tb_shares b) (QcZ 100) = true
+            /\ match tb_stc_fee b with Some f => Qceqb f (QcZ 10) | None => false end = true.
+Proof. exact eso_grant_dropped. Qed.
+Check C19_eso_each_grant_once_refuted :
+  grant_number_rows dropped_grant_witness = 2%nat /\
+  exists b, parse_text dropped_grant_witness = Ok (Benefits [b])
+            /\ tb_note b = w_note_1234 /\ Qceqb (tb_shares b) (QcZ 100) = true
+            /\ match tb_stc_fee b with Some f => Qceqb f (QcZ 10) | None => false end = true.
+Print Assumptions C19_eso_each_grant_once_refuted.
+
+(* Non-vacuity *)
+Example C19_rsu_text_roundtrip_nonvacuous :
+  wf_rsu ex_rsu = true /\ tb_note (rsu_record ex_rsu) = ex_rsu_note
+  /\ tb_date (rsu_record ex_rsu) = 738813%Z.
+Proof. split; [exact ex_rsu_wf|]. split; vm_compute; reflexivity. Qed.
+Example C19_tc_post_text_roundtrip_nonvacuous :
+  wf_post ex_post = true /\ tt_act (post_record ex_post) = XSell
+  /\ Qceqb (tt_comm (post_record ex_post)) (Qcfrac 412 100) = true.
+Proof. split; [exact ex_post_wf|]. split; vm_compute; reflexivity. Qed.
+Example C19_zip_truncation_nonvacuous :
+  length (zip_grants [[]; []] [1%N; 2%N] [0%Qc; 0%Qc] [0%Qc; 0%Qc] [0%Qc; 0%Qc] [0%Qc]) = 1%nat.
+Proof. reflexivity. Qed.
